@@ -191,6 +191,16 @@ func init() {
 			}
 			// signed variants
 			payloads := [][]model.Entry{nil, {ts[0]}, {ts[0], ts[6]}}
+			// the file the command line tool writes (to a fresh path, over an existing longer file)
+			for _, f := range Formats {
+				for _, cls := range []string{"cli-fresh", "cli-over-existing"} {
+					for _, l := range [][]model.Entry{{ts[0]}, {ts[0], ts[4], ts[5]}, nil} {
+						if !yield(C04Case{Class: cls, Format: f, Setting: Setting{Name: "default"}, List: l}) {
+							return
+						}
+					}
+				}
+			}
 			// every non-empty subset of the script slots of every format (control members / .INSTALL presence)
 			for _, f := range Formats {
 				for m := uint(1); m < 1<<uint(len(scriptSlots[f])); m++ {
@@ -268,6 +278,30 @@ func c04Doc(env *engine.Env, c C04Case) (fixture.Doc, error) {
 	return d, nil
 }
 
+// c04ViaCLI packages through the nfpm binary built from the tree and returns the bytes found at the target path.
+func c04ViaCLI(env *engine.Env, text, f string, overExisting bool) ([]byte, error) {
+	bin, err := nfpmBinary(env)
+	if err != nil {
+		return nil, err
+	}
+	work, err := os.MkdirTemp(env.Scratch, "c04cli-")
+	if err != nil {
+		return nil, err
+	}
+	defer os.RemoveAll(work)
+	cp, target := filepath.Join(work, "nfpm.yaml"), filepath.Join(work, "out"+extOf[f])
+	os.WriteFile(cp, []byte(text), 0o644)
+	if overExisting {
+		os.WriteFile(target, bytes.Repeat([]byte("stale bytes of an earlier, larger package\n"), 24000), 0o644)
+	}
+	cmd := exec.Command(bin, "package", "-f", cp, "-p", f, "-t", target)
+	cmd.Dir = work
+	if o, err := cmd.CombinedOutput(); err != nil {
+		return nil, fmt.Errorf("nfpm package: %v: %s", err, o)
+	}
+	return os.ReadFile(target)
+}
+
 func checkC04(env *engine.Env, ci any) engine.Outcome {
 	c := ci.(C04Case)
 	t := tree(env)
@@ -285,7 +319,13 @@ func checkC04(env *engine.Env, ci any) engine.Outcome {
 		out.HarnessError = err.Error()
 		return out
 	}
-	data, err := buildYAML(d.YAML(), f)
+	var data []byte
+	if strings.HasPrefix(c.Class, "cli-") {
+		// the file the command line tool leaves at the target path is judged (fresh path / over an existing longer file)
+		data, err = c04ViaCLI(env, d.YAML(), f, c.Class == "cli-over-existing")
+	} else {
+		data, err = buildYAML(d.YAML(), f)
+	}
 	if err != nil {
 		if want.Unclear != "" || want.Collision || want.OtherErr != "" {
 			out.Key = "rejected-config"
